@@ -590,7 +590,7 @@ def part_energy(ctx, res, EF, r, lebedev_bad):
         eig = rand_eig(r, ek)
         rot = rand_rotation(r) if (k // 2) % 3 == 0 else None
         rotP = rot if (rot is not None and k % 2 == 0) else (rand_rotation(r) if (rot is not None and Pm is not None) else None)
-        shape = ['sphere', 'prolate', 'oblate', 'triaxial'][k % 4 if k % 5 else (k // 5) % 4]
+        shape = ['sphere', 'prolate', 'oblate', 'triaxial'][(k + k // 4) % 4]
         a = 10 ** r.uniform(-9.5, -7.5)
         rad = {'sphere': np.array([a, a, a]), 'prolate': np.array([a, a, a * r.uniform(1.2, 6)]),
                'oblate': np.array([a, a, a / r.uniform(1.2, 6)]), 'triaxial': a * r.uniform(0.4, 2.5, 3)}[shape]
@@ -669,6 +669,22 @@ def part_energy(ctx, res, EF, r, lebedev_bad):
             for nm, e in E.items():
                 if not close(e, want, 1e-9):
                     res.violate('isotropic-sphere-closed-form-' + nm, 'energy of a dilatational sphere in an isotropic matrix != 2G(1+nu)/(1-nu) eps^2 V', case, e, want)
+    # ---- isotropic sphere with a dilatation: every route to the energy gives 2G(1+nu)/(1-nu) eps^2 V
+    for k in range(ctx.n(6, 60)):
+        cm = rand_iso(r); M = EF.elasticConstantToC(*cm[:3]); G, nu = cm[2], cm[4]
+        a = 10 ** r.uniform(-9.5, -7.5); rad = np.array([a, a, a]); eps = r.uniform(-0.03, 0.03)
+        want = 2 * G * (1 + nu) / (1 - nu) * eps ** 2 * 4 * math.pi / 3 * a ** 3
+        order = ['low', 'mid', 'high'][k % 3]
+        se = make_se(EF, M, None if k % 2 else M, eps * np.eye(3), rand_rotation(r) if k % 3 == 0 else None, None, order)
+        got = variants(se, rad)
+        for nm in ('sphere', 'cube'):
+            s2 = EF.StrainEnergy(nm); s2.setElasticTensor(M); s2.setEigenstrain(eps)
+            got['khachaturyan-' + nm] = float(s2.compute(rad))
+        case = dict(cM=list(cm[:3]), E=cm[3], nu=nu, eps=eps, r=a, order=order)
+        res.case(('iso-sphere', k)); res.count('isotropic-sphere-closed-form')
+        for nm, e in got.items():
+            if not close(e, want, 1e-9):
+                res.violate('isotropic-sphere-closed-form-' + nm, 'energy of a dilatational sphere in an isotropic matrix != 2G(1+nu)/(1-nu) eps^2 V', case, e, want)
     # ---- clauses that need an exact quadrature: own tables (failures carry the table's finding key) and injected product rule
     for k in range(ctx.n(6, 40)):
         cm = rand_iso(r); M = EF.elasticConstantToC(*cm[:3]); nu = cm[4]
